@@ -83,7 +83,8 @@ inductive Slot
   | self     -- the C-ABI state block
   | mem      -- compress_part's output block
   | input    -- CompressMultiSlice's copy of the input
-  | tmp      -- a local variable inside one call (`new_commands`, `new_data`, scoped temporaries)
+  | tmp      -- a local variable inside one call (`new_commands`, `new_data`, `command_buf`, scoped temporaries)
+  | tmp2     -- a second local (`literal_buf` of `compress_stream_fast`)
 deriving DecidableEq, Repr
 
 structure Enc where
@@ -99,12 +100,13 @@ structure Enc where
   mem : List BlockId := []
   input : List BlockId := []
   tmp : List BlockId := []
+  tmp2 : List BlockId := []
 deriving Repr
 
 def Enc.get (e : Enc) : Slot → List BlockId
   | .storage => e.storage | .commands => e.commands | .ring => e.ring | .hasher => e.hasher
   | .table => e.table | .cbuf => e.cbuf | .lbuf => e.lbuf | .ext => e.ext | .self => e.self
-  | .mem => e.mem | .input => e.input | .tmp => e.tmp
+  | .mem => e.mem | .input => e.input | .tmp => e.tmp | .tmp2 => e.tmp2
 
 def Enc.set (e : Enc) (s : Slot) (v : List BlockId) : Enc :=
   match s with
@@ -113,6 +115,7 @@ def Enc.set (e : Enc) (s : Slot) (v : List BlockId) : Enc :=
   | .cbuf => { e with cbuf := v } | .lbuf => { e with lbuf := v } | .ext => { e with ext := v }
   | .self => { e with self := v } | .mem => { e with mem := v } | .input => { e with input := v }
   | .tmp => { e with tmp := v }
+  | .tmp2 => { e with tmp2 := v }
 
 /-- the seven fields of `BrotliEncoderStateStruct` that own allocator memory, with their Rust names -/
 def fieldSlots : List (String × Slot) :=
@@ -122,7 +125,7 @@ def fieldSlots : List (String × Slot) :=
 /-- every block referenced from a slot -/
 def Enc.held (e : Enc) : List BlockId :=
   e.storage ++ e.commands ++ e.ring ++ e.hasher ++ e.table ++ e.cbuf ++ e.lbuf ++ e.ext ++ e.self ++
-    e.mem ++ e.input ++ e.tmp
+    e.mem ++ e.input ++ e.tmp ++ e.tmp2
 
 /-- the blocks referenced from the seven owning fields of the state -/
 def Enc.fields (e : Enc) : List BlockId :=
@@ -272,63 +275,80 @@ def gt (n : Option Nat) (old : Nat) : Bool := match n with | none => true | some
 
 def hasherReplaceActs (fl : Flags) : List Act := [if fl.setDictFrees then .free .hasher else .lose .hasher]
 
-def ringOpt (m8 : Nat) : Option Nat → List Act
-  | none => []
-  | some _ => ringInitActs m8
+def ringOpt (m8 : Nat) (grow : Bool) : List Act := if grow then ringInitActs m8 else []
+
+/-- the sites of one `compress_stream` call, in the order in which `encode_data` reaches them -/
+def csActs (m8 : Nat) (st q1 tb rg cm : Bool) (hk temps : Nat) : List Act :=
+  (if st then storageGrowActs m8 else []) ++
+  (if q1 then [.alloc m8 .cbuf 1, .alloc m8 .lbuf 1] else []) ++
+  (if tb then tableGrowActs m8 else []) ++
+  ringOpt m8 rg ++
+  (if cm then commandsGrowActs m8 else []) ++
+  (if hk = 0 then [] else [.alloc m8 .hasher hk]) ++
+  scopedActs m8 temps
+
+/-- is the recorded call possible in this state?  (`none` = yes) -/
+def opGuard (w : W) : Op → Option String
+  | .create _ => if w.enc.fields ++ w.enc.self ≠ [] then some "create-on-live-instance" else none
+  | .mkExt lens => if lens = [] ∨ w.enc.ext ≠ [] then some "mkext" else none
+  | .setDict ring hasher =>
+    if !gt ring w.ringLen then some "ring-not-grown" else
+    if hasher.length > 2 then some "hasher-blocks" else
+    if hasher ≠ [] ∧ w.q < 2 then some "hasher-at-q0q1" else none
+  | .setDictExt ring fresh =>
+    if w.enc.ext = [] then some "no-precomputed-hasher" else
+    if !gt ring w.ringLen then some "ring-not-grown" else
+    if fresh.length > 2 then some "hasher-blocks" else none
+  | .cs d =>
+    if !gt d.storage w.ss then some "storage-not-grown" else
+    if !gt d.commands w.ca then some "commands-not-grown" else
+    if d.commands.isSome ∧ w.q < 2 then some "commands-at-q0q1" else
+    if !gt d.ring w.ringLen then some "ring-not-grown" else
+    if d.hasher ≠ [] ∧ (w.q < 2 ∨ w.enc.hasher ≠ [] ∨ d.hasher.length > 2) then some "hasher-setup" else
+    if d.table.isSome ∧ (1 < w.q ∨ !gt d.table w.tableLen ∨ !gt d.table 1024) then some "table" else
+    if d.q1bufs.isSome ∧ (w.q ≠ 1 ∨ w.enc.cbuf ≠ [] ∨ w.enc.lbuf ≠ []) then some "q1bufs" else none
+  | .cleanup => none
+  | .ffiDestroy => none
+  | .allocMem => if w.enc.mem ≠ [] then some "mem" else none
+  | .freeMem => none
+  | .allocInput => if w.enc.input ≠ [] then some "input" else none
+  | .freeInput => none
+  | .oneshotHasher _ lens => if w.enc.hasher ≠ [] ∨ lens = [] then some "oneshot-hasher" else none
+
+/-- the micro-actions of one call of the public API -/
+def opActs (fl : Flags) (m8 : Nat) : Op → List Act
+  | .create ffi => if ffi then [.alloc m8 .self 1] else []
+  | .mkExt lens => [.alloc m8 .ext lens.length]
+  | .setDict ring hasher =>
+    hasherReplaceActs fl ++ ringOpt m8 ring.isSome ++ (if hasher.length = 0 then [] else [.alloc m8 .hasher hasher.length])
+  | .setDictExt ring fresh =>
+    hasherReplaceActs fl ++ [.move .ext .hasher] ++
+      -- dictionary longer than the window: the shared index is useless and is destroyed
+      (if fresh.length = 0 then [] else [if fl.setDictTruncFrees then .free .hasher else .lose .hasher]) ++
+      ringOpt m8 ring.isSome ++ (if fresh.length = 0 then [] else [.alloc m8 .hasher fresh.length])
+  | .cs d =>
+    csActs m8 d.storage.isSome d.q1bufs.isSome d.table.isSome d.ring.isSome d.commands.isSome d.hasher.length d.temps
+  | .cleanup => cleanupActs
+  | .ffiDestroy => (if fl.ffiDestroyCleanup then cleanupActs else abandonActs) ++ [.free .self]
+  | .allocMem => [.alloc m8 .mem 1]
+  | .freeMem => [.free .mem]
+  | .allocInput => [.alloc m8 .input 1]
+  | .freeInput => [.free .input]
+  | .oneshotHasher other lens => [.alloc (if fl.oneshotHasherOwn then m8 else other) .hasher lens.length]
+
+/-- the size fields the guards look at -/
+def opBook (w : W) : Op → W
+  | .setDict ring _ => { w with ringLen := ring.getD w.ringLen }
+  | .setDictExt ring _ => { w with ringLen := ring.getD w.ringLen }
+  | .cs d => { w with ss := d.storage.getD w.ss, ca := d.commands.getD w.ca, ringLen := d.ring.getD w.ringLen,
+                      tableLen := d.table.getD w.tableLen }
+  | _ => w
 
 /-- one call of the public API; `Except.error` = the recorded event is impossible in this state -/
-def step (fl : Flags) (w : W) : Op → Except String W
-  | .create ffi =>
-    if w.enc.fields ++ w.enc.self ≠ [] then .error "create-on-live-instance" else
-    .ok (w.acts (if ffi then [.alloc w.m8 .self 1] else []))
-  | .mkExt lens =>
-    if lens = [] ∨ w.enc.ext ≠ [] then .error "mkext" else
-    .ok (w.acts [.alloc w.m8 .ext lens.length])
-  | .setDict ring hasher =>
-    if !gt ring w.ringLen then .error "ring-not-grown" else
-    if hasher.length > 2 then .error "hasher-blocks" else
-    if hasher ≠ [] ∧ w.q < 2 then .error "hasher-at-q0q1" else
-    .ok { w.acts (hasherReplaceActs fl ++ ringOpt w.m8 ring ++
-            (if hasher = [] then [] else [.alloc w.m8 .hasher hasher.length])) with
-          ringLen := ring.getD w.ringLen }
-  | .setDictExt ring fresh =>
-    if w.enc.ext = [] then .error "no-precomputed-hasher" else
-    if !gt ring w.ringLen then .error "ring-not-grown" else
-    if fresh.length > 2 then .error "hasher-blocks" else
-    let trunc : List Act :=
-      if fresh = [] then [] else
-        -- dictionary longer than the window: the shared index is useless
-        (if fl.setDictTruncFrees then [.free .hasher] else [.lose .hasher])
-    .ok { w.acts (hasherReplaceActs fl ++ [.move .ext .hasher] ++ trunc ++ ringOpt w.m8 ring ++
-            (if fresh = [] then [] else [.alloc w.m8 .hasher fresh.length])) with
-          ringLen := ring.getD w.ringLen }
-  | .cs d =>
-    if !gt d.storage w.ss then .error "storage-not-grown" else
-    if !gt d.commands w.ca then .error "commands-not-grown" else
-    if d.commands.isSome ∧ w.q < 2 then .error "commands-at-q0q1" else
-    if !gt d.ring w.ringLen then .error "ring-not-grown" else
-    if d.hasher ≠ [] ∧ (w.q < 2 ∨ w.enc.hasher ≠ [] ∨ d.hasher.length > 2) then .error "hasher-setup" else
-    if d.table.isSome ∧ (1 < w.q ∨ !gt d.table w.tableLen ∨ !gt d.table 1024) then .error "table" else
-    if d.q1bufs.isSome ∧ (w.q ≠ 1 ∨ w.enc.cbuf ≠ [] ∨ w.enc.lbuf ≠ []) then .error "q1bufs" else
-    .ok { w.acts ((if d.storage.isSome then storageGrowActs w.m8 else []) ++
-            (if d.q1bufs.isSome then [.alloc w.m8 .cbuf 1, .alloc w.m8 .lbuf 1] else []) ++
-            (if d.table.isSome then tableGrowActs w.m8 else []) ++
-            ringOpt w.m8 d.ring ++
-            (if d.commands.isSome then commandsGrowActs w.m8 else []) ++
-            (if d.hasher = [] then [] else [.alloc w.m8 .hasher d.hasher.length]) ++
-            scopedActs w.m8 d.temps) with
-          ss := d.storage.getD w.ss, ca := d.commands.getD w.ca, ringLen := d.ring.getD w.ringLen,
-          tableLen := d.table.getD w.tableLen }
-  | .cleanup => .ok (w.acts cleanupActs)
-  | .ffiDestroy =>
-    .ok (w.acts ((if fl.ffiDestroyCleanup then cleanupActs else abandonActs) ++ [.free .self]))
-  | .allocMem => if w.enc.mem ≠ [] then .error "mem" else .ok (w.acts [.alloc w.m8 .mem 1])
-  | .freeMem => .ok (w.acts [.free .mem])
-  | .allocInput => if w.enc.input ≠ [] then .error "input" else .ok (w.acts [.alloc w.m8 .input 1])
-  | .freeInput => .ok (w.acts [.free .input])
-  | .oneshotHasher other lens =>
-    if w.enc.hasher ≠ [] ∨ lens = [] then .error "oneshot-hasher" else
-    .ok (w.acts [.alloc (if fl.oneshotHasherOwn then w.m8 else other) .hasher lens.length])
+def step (fl : Flags) (w : W) (op : Op) : Except String W :=
+  match opGuard w op with
+  | some e => .error e
+  | none => .ok (opBook (w.acts (opActs fl w.m8 op)) op)
 
 def run (fl : Flags) : W → List Op → Except String W
   | w, [] => .ok w
@@ -343,29 +363,30 @@ Mirror of the prologue / epilogue of `compress_stream_fast` at quality 1 (`enc/e
 `buf` = `min(kBlock, available_in, 1 << lgwin)`.  The local variables `command_buf`, `literal_buf`
 are the slot `tmp`. -/
 
-def fastPrologue (w : W) (kBlock buf : Nat) : W :=
-  if w.q ≠ 1 then w else
-  let w1 := if w.enc.cbuf = [] ∧ buf = kBlock then w.acts [.alloc w.m8 .cbuf 1, .alloc w.m8 .lbuf 1] else w
-  if w1.enc.cbuf ≠ [] then
+def fastPrologueActs (w : W) (kBlock buf : Nat) : List Act :=
+  if w.q ≠ 1 then [] else
+  -- if self.command_buf_.is_empty() && buf_size == kBlock { command_buf_ = allocate(kBlock); literal_buf_ = … }
+  (if w.enc.cbuf = [] ∧ buf = kBlock then [.alloc w.m8 .cbuf 1, .alloc w.m8 .lbuf 1] else []) ++
+  (if w.enc.cbuf ≠ [] ∨ buf = kBlock then
     -- command_buf = take(self.command_buf_); literal_buf = take(self.literal_buf_)
-    w1.acts [.move .cbuf .tmp, .move .lbuf .tmp]
-  else
+    [.move .cbuf .tmp, .move .lbuf .tmp2]
+   else
     -- command_buf = allocate(buf_size); literal_buf = allocate(buf_size)   (nothing for buf_size = 0)
-    w1.acts (if buf = 0 then [] else [.alloc w.m8 .tmp 2])
+    (if buf = 0 then [] else [.alloc w.m8 .tmp 1, .alloc w.m8 .tmp2 1]))
 
 /-- `localIsBlock`: `command_buf.len() == kCompressFragmentTwoPassBlockSize` -/
-def fastEpilogue (w : W) (localIsBlock : Bool) : W :=
+def fastEpilogueActs (w : W) (localIsBlock : Bool) : List Act :=
   if localIsBlock ∧ w.enc.cbuf = [] then
-    -- undo the aliasing: the two locals go back into the fields
-    match w.enc.tmp with
-    | [c, l] => { w with enc := ((w.enc.set .cbuf [c]).set .lbuf [l]).set .tmp [] }
-    | _ => w.acts [.free .tmp]
-  else w.acts [.free .tmp]
+    -- undo the aliasing: `self.command_buf_ = take(command_buf); self.literal_buf_ = take(literal_buf)`
+    -- (an assignment drops what the field held)
+    [.lose .cbuf, .move .tmp .cbuf, .lose .lbuf, .move .tmp2 .lbuf]
+  else [.free .tmp, .free .tmp2]
 
 def fastPath (w : W) (kBlock buf : Nat) : W :=
-  let w1 := fastPrologue w kBlock buf
-  -- the locals have length kBlock exactly when they came from (or were just put into) the fields
-  fastEpilogue w1 (decide (w.q = 1 ∧ (w.enc.cbuf ≠ [] ∨ buf = kBlock)))
+  let w1 := w.acts (fastPrologueActs w kBlock buf)
+  -- the locals have length kBlock exactly when they came from (or were just put into) the fields:
+  -- every site that fills `command_buf_`/`literal_buf_` allocates kBlock elements
+  w1.acts (fastEpilogueActs w1 (decide (w.q = 1 ∧ (w.enc.cbuf ≠ [] ∨ buf = kBlock))))
 
 /-! ## Entry points as op sequences -/
 
